@@ -30,6 +30,19 @@ static void writeImage(const char *fn) {
   std::ofstream f(fn, std::ios::binary); uint32_t words = sizeof(IMG) / 4;
   f.write(reinterpret_cast<const char *>(&words), 4); f.write(reinterpret_cast<const char *>(IMG), sizeof(IMG));
 }
+// second image: exits with the value of word k, which lies outside the image and is never written by the program:
+// BR 7 | pad | DATA 16 (sp) | LDAM k (prefixed); LDBM 1; STAI 2; LDAC 0; OPR SVC
+static void writeReaderImage(const char *fn, uint32_t k) {
+  std::vector<uint8_t> b = {0x97, 0, 0, 0, 16, 0, 0, 0};
+  int n = 1; while (n < 8 && (k >> (4 * n)) != 0) n++;
+  for (int i = n - 1; i >= 1; i--) b.push_back(0xE0 | ((k >> (4 * i)) & 0xF));
+  b.push_back(0x00 | (k & 0xF));
+  for (uint8_t x : {0x11, 0x82, 0x30, 0xD3}) b.push_back(x);
+  while (b.size() % 4) b.push_back(0);
+  std::ofstream f(fn, std::ios::binary); uint32_t words = b.size() / 4;
+  f.write(reinterpret_cast<const char *>(&words), 4); f.write(reinterpret_cast<const char *>(b.data()), b.size());
+}
+static const char *g_image = "c13_img.bin";
 struct Planted { bool use; uint32_t pc, a, b, o, w0; int seed; };
 struct Outcome { int exitCode; std::string out; bool threw; uint32_t memk; long consumed; };
 
@@ -43,7 +56,7 @@ static Outcome runOnce(const Planted &p, uint32_t k) {
   Outcome oc{0, "", false, 0, 0};
   uint32_t before = 0;
   try {
-    load("c13_img.bin", top);
+    load(g_image, top);
     if (p.use) {
       auto *pr = top->hex->u_processor;
       pr->pc_q = p.pc & 0x1FFFFF; pr->__PVT__areg_q = p.a; pr->__PVT__breg_q = p.b; pr->__PVT__oreg_q = p.o;
@@ -83,9 +96,19 @@ int main(int argc, char **argv) {
     printf("{\"ok\": %s, \"why\": \"%s\", \"exit\": %d, \"clean_exit\": %d}\n", why.empty() ? "true" : "false", why.c_str(), got.exitCode, clean.exitCode);
     return why.empty() ? 0 : 1;
   }
+  // readword <k>: a program that exits with the never-written word k, under several randomisation seeds vs the clean power-on state
+  if (argc >= 3 && !strcmp(argv[1], "readword")) {
+    uint32_t k = strtoul(argv[2], 0, 0); if (k < 32 || k >= 524288) k = 100;
+    writeReaderImage("c13_reader.bin", k); g_image = "c13_reader.bin";
+    Outcome clean = runOnce(cleanP, 40); std::string why; int badSeed = 0;
+    for (int sd = 1; sd <= 6 && why.empty(); sd++) { Planted p{false, 0, 0, 0, 0, 0, sd * 7919}; Outcome got = runOnce(p, 40); why = differs(got, clean); badSeed = p.seed; }
+    g_image = "c13_img.bin";
+    printf("{\"ok\": %s, \"why\": \"%s\", \"program\": \"exit(word %u), word never written\", \"seed\": %d, \"clean_exit\": %d}\n", why.empty() ? "true" : "false", why.c_str(), k, badSeed, clean.exitCode);
+    return why.empty() ? 0 : 1;
+  }
   if (argc >= 4 && !strcmp(argv[1], "sweep")) {
     std::mt19937_64 rng(strtoull(argv[2], 0, 10)); long n = atol(argv[3]);
-    long mism = 0; std::string why; Planted first{};
+    long mism = 0; std::string why; Planted first{}; uint32_t firstReader = 0;
     for (long it = 0; it < n; it++) {
       Planted p{}; uint32_t k = 40 + (uint32_t)(rng() % 1000);
       if (it % 2 == 0) { p.use = false; p.seed = (int)(rng() & 0x7FFFFFFF); if (p.seed == 0) p.seed = 1; }
@@ -99,12 +122,17 @@ int main(int argc, char **argv) {
         p.w0 = (uint32_t)byte | ((uint32_t)next << 8);
         uint32_t opr = byte & 0xF; if ((byte >> 4) == 2) k = opr; if ((byte >> 4) == 8) k = p.b + opr; if (k < 32) k = 40;
       }
+      bool reader = !p.use && (it % 4 == 0);      // seeded power-on state + a program that reads a word it never wrote
+      uint32_t rk = 0;
+      if (reader) { rk = 64 + (uint32_t)(rng() % 500000); writeReaderImage("c13_reader.bin", rk); g_image = "c13_reader.bin"; }
       Outcome clean = runOnce(cleanP, k), got = runOnce(p, k);
+      g_image = "c13_img.bin";
       std::string w = differs(got, clean);
-      if (!w.empty()) { if (!mism) { why = w; first = p; } mism++; }
+      if (!w.empty() && reader) w += " (program exits with the never-written word " + std::to_string(rk) + ")";
+      if (!w.empty()) { if (!mism) { why = w; first = p; firstReader = reader ? rk : 0; } mism++; }
     }
-    printf("{\"runs\": %ld, \"mismatches\": %ld, \"why\": \"%s\", \"first\": {\"pc\": %u, \"areg\": %u, \"breg\": %u, \"oreg\": %u, \"w0\": %u, \"k\": 40, \"sp\": 0, \"seed\": %d}}\n",
-           n, mism, why.c_str(), first.pc, first.a, first.b, first.o, first.w0, first.seed);
+    printf("{\"runs\": %ld, \"mismatches\": %ld, \"why\": \"%s\", \"first\": {\"pc\": %u, \"areg\": %u, \"breg\": %u, \"oreg\": %u, \"w0\": %u, \"k\": 40, \"sp\": 0, \"seed\": %d, \"readword\": %u}}\n",
+           n, mism, why.c_str(), first.pc, first.a, first.b, first.o, first.w0, first.seed, firstReader);
     return 0;
   }
   fprintf(stderr, "usage\n"); return 2;
